@@ -98,6 +98,10 @@ fn full_mem_compare(w: &World, m: &RefLc3) -> Result<(), V> {
     Ok(())
 }
 
+fn aset(s: lc3_ensemble::sim::observer::AccessSet) -> (bool, bool, bool) {
+    (s.read(), s.written(), s.modified())
+}
+
 pub struct LsOut {
     pub steps: u64,
     pub resyncs: u64,
@@ -154,12 +158,23 @@ pub fn run(scn: &MScn, oracles: &[Oracle], out: &mut Outcome, fp: &mut Fp, tr: &
                     let pre_depth = m.depth;
 
                     let _ = w.log.take();
+                    if has(Oracle::Observer) {
+                        // per-step sets: the marks kept for the host accesses in between are dropped here
+                        w.sim.observer.clear();
+                    }
                     let res = match guarded(|| w.sim.step_in()) {
                         Ok(r) => r.map_err(|e| err_kind(&e)),
                         Err(p) => fail!("panic-in-step", p),
                     };
                     let recs = w.log.take();
                     let acc: Vec<(u16, lc3_ensemble::sim::observer::AccessSet)> = w.sim.observer.take_mem_accesses().collect();
+                    if has(Oracle::Observer) {
+                        // a host that inspects the observer after a step sees these marks; untracked host
+                        // accesses made before the next step must leave every one of them as it is
+                        for (a, s) in &acc {
+                            w.sim.observer.update_mem_accesses(*a, *s);
+                        }
+                    }
                     let mut reg_init = [false; 8];
                     for k in 0..8 {
                         reg_init[k as usize] = w.sim.reg_file[reg(k)].is_init();
@@ -551,6 +566,7 @@ pub fn run(scn: &MScn, oracles: &[Oracle], out: &mut Outcome, fp: &mut Fp, tr: &
             }
             Op::HostRead { addr, privileged, effects, track } => {
                 let _ = w.log.take();
+                let obs_before = w.sim.observer.get_mem_accesses(*addr);
                 let ctx = lc3_ensemble::sim::MemAccessCtx { privileged: *privileged, strict: false, io_effects: *effects, track_access: *track };
                 let r = match guarded(|| w.sim.read_mem(*addr, ctx)) {
                     Ok(r) => r.map(|x| (x.get(), x.is_init())).map_err(|e| err_kind(&e)),
@@ -569,13 +585,14 @@ pub fn run(scn: &MScn, oracles: &[Oracle], out: &mut Outcome, fp: &mut Fp, tr: &
                 }
                 if has(Oracle::Observer) && !*track {
                     out.bump("probe.untracked-host-access");
-                    if w.sim.observer.get_mem_accesses(*addr).accessed() && *addr < 0xFE00 && !m.reads.contains(addr) && !m.writes.contains_key(addr) {
-                        fail!("observer-untracked-recorded", format!("untracked host read of x{addr:04X} was recorded by the observer"));
+                    if aset(w.sim.observer.get_mem_accesses(*addr)) != aset(obs_before) && *addr < 0xFE00 {
+                        fail!("observer-untracked-recorded", format!("untracked host read of x{addr:04X} changed the observer's marks for it: {:?} -> {:?}", obs_before, w.sim.observer.get_mem_accesses(*addr)));
                     }
                 }
             }
             Op::HostWrite { addr, data, privileged, track } => {
                 let _ = w.log.take();
+                let obs_before = w.sim.observer.get_mem_accesses(*addr);
                 let ctx = lc3_ensemble::sim::MemAccessCtx { privileged: *privileged, strict: false, io_effects: true, track_access: *track };
                 let r = match guarded(|| w.sim.write_mem(*addr, lc3_ensemble::sim::mem::Word::new_init(*data), ctx)) {
                     Ok(r) => r.map_err(|e| err_kind(&e)),
@@ -594,8 +611,8 @@ pub fn run(scn: &MScn, oracles: &[Oracle], out: &mut Outcome, fp: &mut Fp, tr: &
                 if has(Oracle::Observer) && !*track {
                     out.bump("probe.untracked-host-access");
                     let s = w.sim.observer.get_mem_accesses(*addr);
-                    if *addr < 0xFE00 && !m.reads.contains(addr) && !m.writes.contains_key(addr) && s.accessed() {
-                        fail!("observer-untracked-recorded", format!("untracked host write to x{addr:04X} was recorded by the observer (written={}, modified={})", s.written(), s.modified()));
+                    if *addr < 0xFE00 && aset(s) != aset(obs_before) {
+                        fail!("observer-untracked-recorded", format!("untracked host write to x{addr:04X} changed the observer's marks for it: {:?} -> {:?}", obs_before, s));
                     }
                     if s.modified() && !s.written() {
                         fail!("observer-modified-unwritten", format!("x{addr:04X} marked modified but not written after an untracked host write"));
